@@ -35,6 +35,10 @@ fn rx_escape(s: &str) -> String {
     }
     o
 }
+/// comment delimiters are given as users write them: `"/\*" "\*/"` (a slash needs no escape in a string)
+fn rx_escape_delim(s: &str) -> String {
+    rx_escape(s).replace("\\/", "/")
+}
 fn mode_name(i: usize) -> String {
     if i == 1 { "INITIAL".into() } else { format!("M{i}") }
 }
@@ -62,10 +66,10 @@ pub fn render_par_ext(def: &Value, lr: bool, split: bool) -> String {
             d.push_str("%auto_ws_off\n");
         }
         for l in m["lc"].as_array().unwrap() {
-            d.push_str(&format!("%line_comment \"{}\"\n", rx_escape(&chars(l))));
+            d.push_str(&format!("%line_comment \"{}\"\n", rx_escape_delim(&chars(l))));
         }
         for b in m["bc"].as_array().unwrap() {
-            d.push_str(&format!("%block_comment \"{}\" \"{}\"\n", rx_escape(&chars(&b[0])), rx_escape(&chars(&b[1]))));
+            d.push_str(&format!("%block_comment \"{}\" \"{}\"\n", rx_escape_delim(&chars(&b[0])), rx_escape_delim(&chars(&b[1]))));
         }
         if m["unmatched"].as_bool().unwrap() {
             d.push_str("%allow_unmatched\n");
